@@ -136,6 +136,30 @@ impl core::ops::Index<core::ops::Range<usize>> for BytesMut {
     #[verifier::external_body]
     fn index(&self, r: core::ops::Range<usize>) -> (o: &[u8]) ensures o@ == self@.subrange(r.start as int, r.end as int) { unimplemented!() }
 }
+impl vstd::std_specs::core::IndexSpecImpl<core::ops::RangeFull> for BytesMut {
+    open spec fn index_req(&self, idx: &core::ops::RangeFull) -> bool { true }
+}
+impl core::ops::Index<core::ops::RangeFull> for BytesMut {
+    type Output = [u8];
+    #[verifier::external_body]
+    fn index(&self, r: core::ops::RangeFull) -> (o: &[u8]) ensures o@ == self@ { unimplemented!() }
+}
+impl vstd::std_specs::core::IndexSpecImpl<core::ops::RangeTo<usize>> for BytesMut {
+    open spec fn index_req(&self, idx: &core::ops::RangeTo<usize>) -> bool { idx.end <= self@.len() }
+}
+impl core::ops::Index<core::ops::RangeTo<usize>> for BytesMut {
+    type Output = [u8];
+    #[verifier::external_body]
+    fn index(&self, r: core::ops::RangeTo<usize>) -> (o: &[u8]) ensures o@ == self@.subrange(0, r.end as int) { unimplemented!() }
+}
+impl vstd::std_specs::core::IndexSpecImpl<core::ops::RangeFrom<usize>> for BytesMut {
+    open spec fn index_req(&self, idx: &core::ops::RangeFrom<usize>) -> bool { idx.start <= self@.len() }
+}
+impl core::ops::Index<core::ops::RangeFrom<usize>> for BytesMut {
+    type Output = [u8];
+    #[verifier::external_body]
+    fn index(&self, r: core::ops::RangeFrom<usize>) -> (o: &[u8]) ensures o@ == self@.subrange(r.start as int, self@.len() as int) { unimplemented!() }
+}
 // A-flate2-01 / A-zstd-01: the reader adaptors of flate2 and zstd yield the coder's image of their input (or fail)
 pub mod flate2 {
     pub struct Compression { pub level: u32 }
